@@ -2,7 +2,7 @@
    (Link/Conn.v) with on_socket_open/on_socket_close installed.  Checkers in Link/ConnCheck.v.
    Exclusion T (finding F-C16a): on_socket_close / on_socket_unregister_write do not call reconnect(). *)
 From PahoV Require Import Base.Prelude Link.Conn Link.ConnCheck Link.ConnInv Link.ConnStatements
-  Link.C16Proofs Link.ConnRefuted.
+  Link.C16Proofs Link.ConnRefuted Link.ConnFuel.
 
 (* 1. (SockOpen s . SockClose s)* [SockOpen s] *)
 Theorem C16_open_close_partial : forall c ops,
@@ -29,6 +29,11 @@ Print Assumptions C16_open_close_full_refuted.
 Theorem C16_reg_nested_full_refuted : ~ (forall c ops, c_sockcb c = true -> c16_reg_nested_ok (optrace c ops) = true).
 Proof. exact C16_reg_nested_refuted. Qed.
 Print Assumptions C16_reg_nested_full_refuted.
+
+Theorem C16_model_complete : forall c ops,
+  no_fuel_ok (optrace c ops) = true /\ no_deadlock_ok (optrace c ops) = true.
+Proof. exact conn_model_complete. Qed.
+Print Assumptions C16_model_complete.
 
 (* non-vacuity: blocked and partial writes, an error on write, a reconnect from on_disconnect and a
    publish from on_socket_open; each checker rejects a bad trace *)
